@@ -468,6 +468,83 @@ theorem runs_tern (hnp : NoProgs env) {c t f : List Instr} {vc vt vf : Val}
       exact (((g123.trans (p4.cast rfl (by simp) rfl)).trans (p5.cast rfl (by omega) rfl)).trans
         (p6.cast rfl (by omega) rfl)).cast (by omega) rfl (by omega)
 
+/-! ### list literals -/
+
+/-- `c₁; …; cₙ` leaves `n` entries, the last one on top. -/
+theorem go_seq (cvs : List (List Instr × Val)) (hcv : ∀ p ∈ cvs, Runs B rec top env p.1 p.2) :
+    ∃ (ws : List Val) (k : Nat), ws.map (resolve env) = cvs.map (·.2) ∧ k ≤ (cvs.map (·.1)).flatten.length ∧
+      Go B rec top env (cvs.map (·.1)).flatten k 0 [] (cvs.map (·.1)).flatten.length (ws.reverse.map .val) := by
+  induction cvs with
+  | nil => exact ⟨[], 0, rfl, by simp, by simpa using Go.refl [] 0 []⟩
+  | cons p cvs ih =>
+    obtain ⟨c, v⟩ := p
+    obtain ⟨ws, k, hws, hk, g⟩ := ih (fun q hq => hcv q (List.mem_cons_of_mem _ hq))
+    obtain ⟨wc, kc, hwc, hkc, gc⟩ := hcv (c, v) (List.mem_cons_self ..)
+    dsimp only at hwc hkc gc
+    refine ⟨wc :: ws, kc + k, by simp [hwc, hws],
+      by simp only [List.map_cons, List.flatten_cons, List.length_append]; omega, ?_⟩
+    simp only [List.map_cons, List.flatten_cons]
+    have g1 := gc.head_app (cvs.map (·.1)).flatten
+    have g2 := (g.skip_app c).frame [.val wc]
+    have hst : (wc :: ws).reverse.map SVal.val = ws.reverse.map SVal.val ++ [.val wc] := by simp
+    rw [hst]
+    exact (g1.trans (g2.cast rfl (by omega) rfl)).cast rfl rfl (by simp)
+
+/-- `c₁; …; cₙ; MKLIST n`: the list of the element values, in source order. -/
+theorem runs_mkList (hnp : NoProgs env) (cvs : List (List Instr × Val))
+    (hcv : ∀ p ∈ cvs, Runs B rec top env p.1 p.2) :
+    Runs B rec top env ((cvs.map (·.1)).flatten ++ [.mkList cvs.length]) (.list (cvs.map (·.2))) := by
+  obtain ⟨ws, k, hws, hk, g⟩ := go_seq cvs hcv
+  have hlen : ws.reverse.length = cvs.length := by
+    have := congrArg List.length hws
+    simpa using this
+  refine ⟨.list (cvs.map (·.2)), k + 1, rfl,
+    by simp only [List.length_append, List.length_cons, List.length_nil]; omega, ?_⟩
+  have g1 := g.head_app [.mkList cvs.length]
+  have g2 := (go_mkList (B := B) (rec := rec) (top := top) hnp ws.reverse []).skip_app (cvs.map (·.1)).flatten
+  rw [hlen] at g2
+  have hv : (ws.reverse.map (resolve env)).reverse = cvs.map (·.2) := by
+    rw [List.map_reverse, List.reverse_reverse, hws]
+  rw [hv] at g2
+  exact (g1.trans (g2.cast rfl (by omega) rfl)).cast rfl rfl (by simp)
+
+/-! ### running a whole block -/
+
+/-- The outcome of a block whose result value is `v`: a failure value is reported as a failure. -/
+def outOf (v : Val) (log : Log) : Out :=
+  match v with
+  | .err k => { res := .error (.err k), log := log }
+  | v => { res := .ok v, log := log }
+
+theorem loop_end (code : List Instr) (fuel : Nat) (s : St) :
+    loop B rec top env code fuel code.length s = .ok () s := by
+  cases fuel with
+  | zero => simp [loop]
+  | succ n => rw [loop]; simp
+
+theorem finish_resolve (hnp : NoProgs env) (w : Val) (log : Log) :
+    finish rec env true { stack := [.val w], log := log } = outOf (resolve env w) log := by
+  have hp : popS rec env { stack := [.val w], log := log } = .ok (.val (resolve env w)) { stack := [], log := log } := by
+    cases w
+    case ident n =>
+      simp only [popS, resolve, resolveIdent, hnp n]
+      cases env.getType n <;> simp
+      cases env.getParam n <;> simp
+    all_goals simp [popS, resolve]
+  simp only [finish, hp, if_true]
+  cases resolve env w <;> rfl
+
+/-- A block that `Runs` to `v`, executed by `run_raw` (any remaining depth budget ≥ 1, any log). -/
+theorem runAt_of_runs (hnp : NoProgs env) (b : Nat) {code : List Instr} {v : Val}
+    (h : Runs B (runAt B b) (runAt B b) env code v) (log : Log) :
+    runAt B (b + 1) env code true log = outOf v log := by
+  obtain ⟨w, k, rfl, hk, g⟩ := h
+  have hg := g [] [] [] log (blockFuel code - k)
+  have hf : blockFuel code - k + k = blockFuel code := by unfold blockFuel; omega
+  simp only [List.nil_append, List.append_nil, List.length_nil, Nat.zero_add, hf] at hg
+  simp only [runAt, hg, loop_end]
+  exact finish_resolve hnp w log
+
 end
 
 end Seq
